@@ -28,7 +28,7 @@ Print Assumptions C07_quiescent_nodes_hold_the_fold.
 Theorem C07_proposed_batch_collects :
   forall now p d t H batch pid created tasks src (l : list input),
   Ready p d t -> 0 < t -> t <= Z.of_nat (length (dc_quorum d)) ->
-  batch <> 0%N -> tasks <> [] -> 0 <= pid -> is_zero_time created = false -> forallb task_valid tasks = true ->
+  batch <> 0%N -> tasks <> [] -> 0 <= pid -> is_zero_time created = false -> tasks_valid tasks = true ->
   NoDup H -> t <= Z.of_nat (length H) ->
   (forall i, In i H -> (exists a, qget (dc_quorum d) i = Some a) /\
                        exists req, In (ev_sgn_partial, req) l /\ good_req batch i req) ->
@@ -90,27 +90,27 @@ Local Open Scope string_scope.
    those signatures, restarts the round for the next batch and saves it; a failing reconstruction
    writes nothing *)
 Theorem C07_collecting_answer_is_broadcast :
-  forall now m req h inst i1 batch src parts,
+  forall put now m req h inst i1 batch src parts,
   sender_is_participant (i_payload inst) (m_sender m) req = true ->
   String.eqb (m_event m) ev_sgn_start = false ->
   do_live inst (m_event m) req = FOk i1 st_partial_collected (Some (RespSigningProcess batch src parts)) ->
   match reconstruct (h_st h) (m_round m) (i_payload i1) batch src parts with
   | Some sigs =>
       match do_fresh (dump_of i1) ev_sgn_restart (RDefault now) with
-      | FOk i4 _ _ => pm_tail now m req h inst =
+      | FOk i4 _ _ => pm_tail put now m req h inst =
                       ROk (save_fsm (emit h (WSend (broadcast_of h m sigs))) (m_round m) (dump_of i4)) None
-      | FErr => pm_tail now m req h inst = RErr (emit h (WSend (broadcast_of h m sigs)))
-      | FPanic => pm_tail now m req h inst = RPanic
+      | FErr => pm_tail put now m req h inst = RErr (emit h (WSend (broadcast_of h m sigs)))
+      | FPanic => pm_tail put now m req h inst = RPanic
       end
-  | None => pm_tail now m req h inst = RErr h
+  | None => pm_tail put now m req h inst = RErr h
   end.
 Proof. exact collecting_answer_is_broadcast. Qed.
 (* every node that accepts that broadcast holds each of its signatures afterwards (under the
    sender's name, in the round the message names - no other round's store changes) *)
 Theorem C07_broadcast_signatures_are_stored :
-  forall now st m h' o,
+  forall put now st m h' o,
   String.eqb (m_event m) ev_sig_reconstructed = true ->
-  process_message now {| h_st := st; h_tr := [] |} m = ROk h' o ->
+  process_message put now {| h_st := st; h_tr := [] |} m = ROk h' o ->
   exists l, m_req m = MSigs (Some l) /\ l <> [] /\ o = None /\
     (slots_distinct (stamped m l) = true ->
      forall s, In s (stamped m l) -> holds (round_store (h_st h') (m_round m)) s) /\
@@ -119,10 +119,10 @@ Proof. exact reconstructed_message_is_stored. Qed.
 (* `reconstruct` yields one signature per message id, so for the broadcast a node actually makes the
    side condition above is met: every signature of it is held by every node accepting it *)
 Theorem C07_broadcast_of_reconstruction_is_stored :
-  forall now st0 round p batch src parts sigs st m h' o,
+  forall put now st0 round p batch src parts sigs st m h' o,
   reconstruct st0 round p batch src parts = Some sigs ->
   String.eqb (m_event m) ev_sig_reconstructed = true -> m_req m = MSigs (Some sigs) ->
-  process_message now {| h_st := st; h_tr := [] |} m = ROk h' o ->
+  process_message put now {| h_st := st; h_tr := [] |} m = ROk h' o ->
   forall s, In s (stamped m sigs) -> holds (round_store (h_st h') (m_round m)) s.
 Proof. exact broadcast_of_reconstruction_is_stored. Qed.
 Print Assumptions C07_broadcast_of_reconstruction_is_stored.
